@@ -1223,14 +1223,179 @@ func c11FlagFact(g Guard, flag *ssa.Parameter) (val, ok bool) {
 }
 
 // c11TermUnderFlag: the term of t's value in the case flag == val (t itself when the case does not select anything).
+//
+// The variable the flag selects may also be the NODE whose list is scanned (`node, id := vNode, uid; if !directed { node,
+// id = uNode, vid }; for _, l := range node.Incoming`): the list is then a field load through the selected variable. A
+// field path is the same function of its base in every case, so the case's value is substituted at the base of the
+// path and the path is kept.
 func c11TermUnderFlag(tm *Termer, t *Term, flag *ssa.Parameter, val bool) *Term {
-	if t == nil || t.V == nil {
+	return c11TermUnderFlagD(tm, t, flag, val, 0)
+}
+
+func c11TermUnderFlagD(tm *Termer, t *Term, flag *ssa.Parameter, val bool, depth int) *Term {
+	if t == nil || depth > 6 {
 		return t
 	}
-	if nv := c11UnderFlag(t.V, flag, val); nv != t.V {
-		return tm.Of(nv)
+	if t.V != nil {
+		if nv := c11UnderFlag(t.V, flag, val); nv != t.V {
+			return c11TermUnderFlagD(tm, tm.Of(nv), flag, val, depth+1)
+		}
+	}
+	if t.Op == "field" && len(t.Args) == 1 {
+		if base := c11TermUnderFlagD(tm, t.Args[0], flag, val, depth+1); base != t.Args[0] {
+			return &Term{Op: "field", Name: t.Name, Obj: t.Obj, Idx: t.Idx, V: t.V, Args: []*Term{base}}
+		}
 	}
 	return t
+}
+
+// ---------------------------------------------------------------------------
+// Branches on a short-circuit condition kept in a boolean variable (C11.6, edgeBetween)
+//
+// `if a == nil && b == nil {` is compiled to two branches, each testing one comparison, and the rules read what an edge
+// says about a and b off the comparison it tests. The same condition as the case of a tagless switch (`case a == nil &&
+// b == nil:`) or kept in a local (`none := a == nil && b == nil; if none`) is compiled to a boolean phi at the head of
+// the block that branches on it: `t = phi [false from the block that found a != nil, (b == nil) from the block that
+// evaluated it]; if t`. The outcome of such a branch says nothing by itself, but control entered the block over exactly
+// one of the phi's edges and the phi has the value of that edge, so the outcome states a DISJUNCTION, one alternative
+// per edge that can give the phi the outcome's value:
+//   - a constant edge with the other value gives no alternative;
+//   - any other edge gives the branch outcomes known when control leaves its source block towards the phi (those that
+//     dominate the source block and the outcome of its own branch), plus - for a non-constant edge - the edge value
+//     itself having the outcome's value.
+//
+// Each alternative is a conjunction of ordinary branch outcomes about SSA values that are not recomputed between the
+// edge and the end of the phi's block (the branch is the last instruction of the very block the phi heads - only that
+// form is expanded). c11GuardCases returns the alternatives (each expanded in turn, for chains `a && b && c`); a fact
+// follows from the branch outcome iff it follows from every alternative.
+func c11GuardCases(g Guard, depth int) [][]Guard {
+	ph, ok := g.Cond.(*ssa.Phi)
+	if !ok || g.At == nil || ph.Block() != g.At || depth > 3 || len(ph.Edges) != len(ph.Block().Preds) {
+		return [][]Guard{{g}}
+	}
+	if b, isB := ph.Type().Underlying().(*types.Basic); !isB || b.Info()&types.IsBoolean == 0 {
+		return [][]Guard{{g}}
+	}
+	var out [][]Guard
+	for i, e := range ph.Edges {
+		pred := ph.Block().Preds[i]
+		if ph.Block().Dominates(pred) {
+			return [][]Guard{{g}} // a loop-carried flag: its value was set an iteration ago
+		}
+		alts := [][]Guard{nil}
+		if k, isK := e.(*ssa.Const); isK {
+			if k.Value == nil || k.Value.Kind() != constant.Bool {
+				return [][]Guard{{g}}
+			}
+			if constant.BoolVal(k.Value) != g.True {
+				continue
+			}
+		} else {
+			alts = c11GuardCases(Guard{e, g.True, pred}, depth+1)
+		}
+		for _, eg := range c11EdgeConds(pred, ph.Block()) {
+			var next [][]Guard
+			for _, c := range c11GuardCases(eg, depth+1) {
+				for _, a := range alts {
+					next = append(next, append(append([]Guard{}, a...), c...))
+				}
+			}
+			alts = next
+			if len(alts) > 32 {
+				return [][]Guard{{g}}
+			}
+		}
+		out = append(out, alts...)
+	}
+	if len(out) > 32 {
+		return [][]Guard{{g}}
+	}
+	return out
+}
+
+// c11GuardImplies: fact holds in every alternative of the branch outcome g (for an ordinary condition: of g itself).
+// An outcome without alternatives (a phi of constants that cannot have the value) cannot be taken; every fact follows.
+func c11GuardImplies(g Guard, fact func(Guard) bool) bool {
+	for _, alt := range c11GuardCases(g, 0) {
+		ok := false
+		for _, x := range alt {
+			if fact(x) {
+				ok = true
+				break
+			}
+		}
+		if !ok {
+			return false
+		}
+	}
+	return true
+}
+
+// ---------------------------------------------------------------------------
+// Results read per way of returning (C11.4 / C11.6, From / To)
+//
+// `if node == nil { return graph.Empty }; ...; return iterator.NewOrderedNodes(nodes)` has two return instructions, and
+// "this result is given for an absent node" is a fact about the block of the first. The same body moved into a new
+// helper comes back from the normaliser with ONE return: the helper's returns became assignments to a result
+// variable followed by a jump to the end, so the return block is entered over several edges and the result is a phi
+// of that block. What is known when a result is given is then a fact about the EDGE over which the return block is
+// entered (the branch outcomes that dominate the edge's source block and the outcome of its own branch - a superset
+// of what dominates the return block), and the result given is the phi's value on that edge. c11Results lists the
+// results of a function in this sense: one per return block that is entered over a single edge (or is a loop header),
+// one per entering edge otherwise.
+type c11Result struct {
+	ret   *ssa.Return
+	v     ssa.Value       // the value returned (the phi's operand on the edge, for a split return)
+	from  *ssa.BasicBlock // the source block of the entering edge; nil: the return block is not split
+	conds []Guard         // the branch outcomes known when the result is given
+}
+
+// c11SplitReturn: b ends in a return and is entered over several forward edges.
+func c11SplitReturn(b *ssa.BasicBlock) bool {
+	if _, ok := b.Instrs[len(b.Instrs)-1].(*ssa.Return); !ok || len(b.Preds) < 2 {
+		return false
+	}
+	for _, pr := range b.Preds {
+		if b.Dominates(pr) {
+			return false
+		}
+	}
+	return true
+}
+
+func c11Results(fn *ssa.Function, idx int) []c11Result {
+	var out []c11Result
+	for _, b := range fn.Blocks {
+		ret, ok := b.Instrs[len(b.Instrs)-1].(*ssa.Return)
+		if !ok || len(ret.Results) <= idx {
+			continue
+		}
+		v := ret.Results[idx]
+		if !c11SplitReturn(b) {
+			out = append(out, c11Result{ret, v, nil, Guards(b)})
+			continue
+		}
+		for i, pr := range b.Preds {
+			e := v
+			if ph, isPhi := v.(*ssa.Phi); isPhi && ph.Block() == b && i < len(ph.Edges) {
+				e = ph.Edges[i]
+			}
+			out = append(out, c11Result{ret, e, pr, c11EdgeConds(pr, b)})
+		}
+	}
+	return out
+}
+
+// c11ResultTargets: the two target predicates of a path search for "a result is given where `excused` does not hold
+// of the branch outcomes known there": the return instruction of an unsplit return block, the entering edge of a split one.
+func c11ResultTargets(excused func([]Guard) bool) (func(ssa.Instruction) bool, func(from, to *ssa.BasicBlock) bool) {
+	target := func(in ssa.Instruction) bool {
+		return IsReturn(in) && !c11SplitReturn(in.Block()) && !excused(Guards(in.Block()))
+	}
+	targetEdge := func(from, to *ssa.BasicBlock) bool {
+		return c11SplitReturn(to) && !excused(c11EdgeConds(from, to))
+	}
+	return target, targetEdge
 }
 
 // c11IsLinkList: t is the Incoming / Outgoing list of a node, or a variable that holds nothing but such lists.
